@@ -228,6 +228,35 @@ def gen(repo):
     if not stop_clears and "_accepting" in between:
         raise TranslateError("TimerService::stop: touches _accepting between drain and the CAS in an unrecognised way")
 
+    # F23 (second half): Stopped is published together with `_accepting = false` under `_mutex` (markStopped) after the join
+    after_join = sb[i_join:]
+    direct = re.search(r"_lifecycleState\.store\s*\(\s*LifecycleState::Stopped", after_join) is not None
+    via_mark = re.search(r"markStopped\s*\(\s*\)", after_join) is not None
+    if direct == via_mark:
+        raise TranslateError("TimerService::stop: how Stopped is published after the join is not recognised")
+    stop_publishes_locked = False
+    if via_mark:
+        mk = cxxscan.function_body(t, "markStopped")
+        order_mk = _order(mk, "markStopped", [("lock", r"std::lock_guard<std::mutex>\s+lock\s*\(\s*_mutex\s*\)"), ("accepting=false", r"_accepting\.store\s*\(\s*false"),
+                                               ("state=Stopped", r"_lifecycleState\.store\s*\(\s*iora::common::LifecycleState::Stopped")])
+        if order_mk[0] != "lock":
+            raise TranslateError("markStopped: the stores are not under _mutex")
+        stop_publishes_locked = True
+    # F41: periodic invocations go through a guard that cancel() closes
+    has_flag_member = re.search(r"std::shared_ptr<std::atomic<bool>>\s+cancelFlag\s*;", t) is not None
+    guard_in_sched = re.search(r"if\s*\(\s*!\s*cancelFlag->load\s*\([^)]*\)\s*\)\s*\{\s*fn\s*\(\s*\)\s*;", sp) is not None
+    m_close = re.search(r"cancelFlag->store\s*\(\s*true", cb)
+    m_erase = re.search(r"_periodicTimers\.erase\s*\(", cb)
+    closes = m_close is not None and m_erase is not None and m_close.start() < m_erase.start()
+    if len({has_flag_member, guard_in_sched, closes}) != 1:
+        raise TranslateError("periodic cancel guard: member / wrapper / cancel() shapes are inconsistent (%s, %s, %s)" % (has_flag_member, guard_in_sched, closes))
+    if has_flag_member:
+        if not re.search(r"Record\s*\{\s*deadline\s*,\s*Handler\s*\{\s*storedFn\s*\}", sp):
+            raise TranslateError("schedulePeriodic: the first record does not hold the guarded function")
+        if not re.search(r"Handler\s*\{\s*pt\.handler\s*\}", cd):
+            raise TranslateError("collectDueLocked: re-armed record does not hold pt.handler")
+    periodic_guard = has_flag_member
+
     out = HEADER % (fw + ", " + ft + ", " + fk)
     out += "namespace Iora.Gen.Timer\n"
     out += "/-- `TimingWheel::schedule`: `_accepting` is tested again after `_wheelMutex` is taken and before `insertEntry` (F32) -/\n"
@@ -262,5 +291,9 @@ def gen(repo):
     out += "def svcDrainRestoresAcceptingOnTimeout : Bool := %s\ndef svcDrainSweepOp : String := \"%s\"\n" % (_bool(drain_restores), drain_sweep_op)
     out += "/-- `TimerService::stop`: timeout of the internal drain; `_accepting = false` under `_mutex` after it and before the thread is stopped (F23) -/\n"
     out += "def svcStopDrainMs : Nat := %d\ndef svcStopClearsAccepting : Bool := %s\n" % (stop_drain_ms, _bool(stop_clears))
+    out += "/-- `TimerService::stop`: after the join, Stopped and `_accepting = false` are stored together under `_mutex` (F23) -/\n"
+    out += "def svcStopPublishesStoppedUnderLock : Bool := %s\n" % _bool(stop_publishes_locked)
+    out += "/-- every invocation of a periodic handler checks a flag that `cancel()` sets before it erases the periodic entry (F41) -/\n"
+    out += "def svcPeriodicCancelGuard : Bool := %s\n" % _bool(periodic_guard)
     out += "end Iora.Gen.Timer\n"
     return "IoraModel/Gen/Timer.lean", out
